@@ -341,6 +341,12 @@ def gen_config(cs, tier='quick', force=None):
     # the earlier run tracked another OUTPUT list (reversed, and one fewer if there are several): its rows and summary have
     # another shape than those of the run under test
     c['pre_other_outputs'] = bool(c['pre_run']) and cs.choose(3, 'pre_other_outputs') == 2
+    c['pre_same_settings'] = bool(c['pre_run']) and cs.choose(3, 'pre_same_settings') == 2
+    if c['pre_same_settings']:
+        c['pre_other_outputs'] = False
+        if any(i_.get('hash_arg') is not None for i_ in c['inputs']):
+            # a '#' argument means "the value of the base input": the same settings file on another base content is another request
+            c['pre_other_base'] = True
     c['settings_out'] = [0, 0, 0, 0, 0, 0, 1, 2][cs.choose(8, 'settings_out')]   # MC_OUTPUT_FILE line (1: alone, 2: plus another path on the command line)
     # sometimes a second, independent Monte-Carlo driver process runs at the same time on the same machine (same temp
     # directory, a base input file with the same name in another project directory, its own settings and result file)
@@ -352,6 +358,8 @@ def gen_config(cs, tier='quick', force=None):
     if not c['second_driver'] and (cs.choose(6, 'crash_restart') == 5 or force.get('crash_restart')):
         c['crash_restart'] = 1 + cs.choose(c['iterations'] * 4 + 40, 'crash_at')
         c['pre_run'] = None
+        # ... and half of the time the user changed the distributions (same INPUT and OUTPUT names) before starting again
+        c['crash_other_settings'] = cs.choose(2, 'crash_other_settings') == 1
     if c['second_driver']:
         c['pre_run'] = None
         # ...or in the very same project directory, on the very same base input file (own settings and result file)
@@ -467,6 +475,49 @@ def settings_text(c):
     return '\n'.join(lines) + '\n'
 
 
+def _other_settings(c):
+    """the same INPUT and OUTPUT names with other legal distributions (what the settings file said before the user edited it),
+    and enough iterations for the job to be still running when it is killed"""
+    table = {'hip': WL.HIP_INPUTS, 'hipold': WL.HIPOLD_INPUTS, 'geo': WL.GEO_INPUTS, 'toy': WL.TOY_INPUTS}[c['program']]
+    ins = []
+    for i in c['inputs']:
+        spec = table.get(i['name'])
+        alt = None
+        if spec is not None:
+            for d in spec['ok']:
+                if (d[0] == 'binomial') == bool(i['discrete']) and (d[0] != i['dist'] or list(d[1:]) != list(i['args'])):
+                    alt = d
+                    break
+        if alt is None:
+            ins.append(dict(i))
+        else:
+            ins.append({'name': i['name'], 'dist': alt[0], 'args': list(alt[1:]), 'edge': False, 'discrete': alt[0] == 'binomial'})
+    return dict(c, inputs=ins, iterations=max(c['iterations'], 8))
+
+
+def _ok_keys(notes, nin_):
+    """sampled-value keys of the successfully simulated iterations in `notes` (same reconstruction as analyse)"""
+    by_file, last, out = {}, {}, collections.Counter()
+    for kind, n in notes:
+        t = n.get('task')
+        if kind == 'write' and n['path'].startswith('tmp/') and t is not None:
+            it = by_file.get((n.get('pid'), t, n['path']))
+            if it is None:
+                it = {'entries': b'', 'sim': None}
+                by_file[(n.get('pid'), t, n['path'])] = it
+                last[(n.get('pid'), t)] = it
+            it['entries'] += n['data']
+        elif kind == 'sim_end':
+            it = last.get((n.get('pid'), t))
+            if it is not None and it['sim'] is None:
+                it['sim'] = bool(n['ok'])
+    for it in by_file.values():
+        if it['sim']:
+            lines_ = [x for x in it['entries'].decode('utf-8', 'replace').split('\n') if x.strip()]
+            out[''.join(x.replace(', ', ':') + ';' for x in lines_[-nin_:])] += 1
+    return out
+
+
 def _other_base_text(c):
     """another legal base input of the same program (what the file at the same path held during an earlier run)"""
     if c['program'] == 'hip':
@@ -531,7 +582,9 @@ def run_one(payload):
         k.rng_objects = _find_rng_objects()
         k.rng_finder = _find_rng_objects
         # module-level variables of the Monte-Carlo package are per process (lazily created clients, generators, counters, caches)
-        k.virtual_modules = [mod_ for n_, mod_ in sorted(sys.modules.items()) if n_.startswith('geophires_monte_carlo') and mod_ is not None]
+        # ... and so are those of the client packages the workers use, and the state-holding class attributes of all of them
+        k.virtual_modules = [mod_ for n_, mod_ in sorted(sys.modules.items())
+                             if n_.split('.')[0] in ('geophires_monte_carlo', 'geophires_x_client', 'hip_ra', 'hip_ra_x') and mod_ is not None]
         if 'stale_lock' in c:
             sl = c['stale_lock']
             pid = 777 if sl['pid'] == 'live' else 778
@@ -587,16 +640,27 @@ def run_one(payload):
                         k.probes['crashed_job_left_%s' % ('rows' if left.count(b'\n') > 1 else 'header_only' if left else 'empty_file')] += 1
                     except OSError:
                         k.probes['crashed_job_left_no_file'] += 1
+                if c.get('crash_other_settings'):
+                    with K._real['open'](stg, 'w') as f0:
+                        f0.write(settings_text(c) + (f'MC_OUTPUT_FILE, {out}\n' if c.get('settings_out') else ''))
+                    k.touch_path(stg)
+                    k.probes['settings_edited_between_crash_and_restart'] += 1
                 # only the run under test is analysed
                 k.marks = {'notes': len(k.notes), 'pools': len(k.pools)}
             if c.get('pre_run'):
                 stg0 = os.path.join(work, 'mc_settings_pre.txt')
-                with K._real['open'](stg0, 'w') as f0:
-                    c0 = dict(c, iterations=c['pre_run'])
-                    if c.get('pre_other_outputs'):
-                        o0 = list(reversed(c['outputs']))
-                        c0['outputs'] = o0[:-1] if len(o0) > 1 else o0
-                    f0.write(settings_text(c0))
+                if c.get('pre_same_settings'):
+                    # the very same settings file, untouched between the two runs (whatever is remembered about a settings file
+                    # from the first run meets it again)
+                    stg0 = stg
+                    k.probes['earlier_run_with_the_same_settings_file'] += 1
+                else:
+                    with K._real['open'](stg0, 'w') as f0:
+                        c0 = dict(c, iterations=c['pre_run'])
+                        if c.get('pre_other_outputs'):
+                            o0 = list(reversed(c['outputs']))
+                            c0['outputs'] = o0[:-1] if len(o0) > 1 else o0
+                        f0.write(settings_text(c0))
                 if c.get('pre_other_base'):
                     with K._real['open'](inp, 'w') as f0:
                         f0.write(_other_base_text(c))
@@ -678,6 +742,10 @@ def run_one(payload):
             priv_b = K.Priv(np.random.RandomState(c['np_seed_b']).get_state(), _random.Random(c['np_seed_b']).getstate(),
                             work_b, ['mc-driver-b'])
             others = [(parent_b, priv_b)]
+        if c.get('crash_restart') and c.get('crash_other_settings'):
+            # the settings file as it was when the crashed job started (it is put back before the run under test starts)
+            with open(stg, 'w') as f:
+                f.write(settings_text(_other_settings(c)) + (f'MC_OUTPUT_FILE, {out}\n' if c.get('settings_out') else ''))
         if c.get('crash_restart'):
             def crashed_job():
                 from geophires_monte_carlo import SimulationProgram
@@ -913,10 +981,22 @@ def analyse(rec, c, k, out_path, inp_path, payload, driver=None):
     rec['pool_broken'] = broken
     rec['pools'] = len(pools)
     n_obs = max(n_sub, len(iters))      # a pool task may carry several iterations (chunking), so count iterations seen as well
-    if pool is not None and n_obs < c['iterations'] and (strict or not broken):
-        # (more than ITERATIONS is legal - e.g. a retry pass; fewer means requested iterations were never run)
-        V('C13', 'iteration_count', 'fewer_than_requested',
-          f"{n_sub} pool tasks / {len(iters)} iterations observed for ITERATIONS={c['iterations']}")
+
+    def check_iteration_count(carried=0):
+        if pool is not None and n_obs + carried < c['iterations'] and (strict or not broken):
+            # (more than ITERATIONS is legal - e.g. a retry pass; fewer means requested iterations were never run)
+            V('C13', 'iteration_count', 'fewer_than_requested',
+              f"{n_sub} pool tasks / {len(iters)} iterations observed for ITERATIONS={c['iterations']}"
+              + (f' ({carried} rows carried over from the interrupted run)' if carried else ''))
+            if any(it['sim'] is False for it in iters):
+                # C14 "an iteration that fails affects only its own row": other iterations were never run in a run where some
+                # failed (judged at batch level: kept only if runs WITHOUT failing iterations run all of theirs)
+                V('C14', 'failure_leak', 'iterations_never_run_when_another_iteration_failed',
+                  f"only {n_obs} of {c['iterations']} requested iterations were run in a run where "
+                  f"{sum(1 for it in iters if it['sim'] is False)} iteration(s) failed")
+                viol[-1]['conditional'] = 'no_loss_without_failures'
+            else:
+                rec['lost_without_failures'] = True
     # an iteration is "successfully simulated" when the simulator call made for it returned normally
     ok_iters = [it for it in iters if it['sim'] is True]
     successes = [it['task'] for it in ok_iters]          # one entry per successful simulator call
@@ -936,6 +1016,7 @@ def analyse(rec, c, k, out_path, inp_path, payload, driver=None):
     except OSError:
         text = None
     if text is None:
+        check_iteration_count()
         if successes and (strict or not broken):
             V('C13', 'lost_row', 'no_result_file', f'{len(successes)} successful iterations, no result file')
         return
@@ -984,6 +1065,23 @@ def analyse(rec, c, k, out_path, inp_path, payload, driver=None):
             worker_writes = True
             wrote[n['task']] += n['data'].count(b'\n')
     good_rows = len(rows) + len(pr['malformed'])
+    # crash and restart: a row that an iteration of the interrupted job produced and that is still in the file is a row of a
+    # successfully simulated iteration all the same (a driver that resumes is as good as one that starts afresh) - as long as
+    # it is a sample of the distributions requested NOW, which the support and distribution checks below decide
+    carried = 0
+    if c.get('crash_restart') and marks['notes']:
+        pre_ok = _ok_keys(k.notes[:marks['notes']], nin_)
+        own_ok = collections.Counter(it['key'] for it in ok_iters)
+        for key_, n_ in row_keys.items():
+            more = n_ - own_ok.get(key_, 0)
+            if more > 0:
+                carried += min(more, pre_ok.get(key_, 0))
+        if carried:
+            rec['rows_carried_over_from_the_interrupted_run'] = carried
+            k.probes['rows_carried_over_from_the_interrupted_run'] += carried
+            rec['probes'] = dict(k.probes)
+    good_rows -= carried
+    check_iteration_count(carried)
     if good_rows > len(successes):
         V('C13', 'extra_row', 'count', f'{good_rows} rows for {len(successes)} successfully simulated iterations')
     elif good_rows < len(successes):
